@@ -47,19 +47,54 @@ func hRyw(dir string) {
 	lkv, fkv := regattapb.NewKVClient(leader.conn), regattapb.NewKVClient(follower.conn)
 	tc := regattapb.NewTablesClient(leader.conn)
 	fWrites, fUnknown := 0, 0
+	// writes through the RESTARTED follower on tables it had before the restart (its table manager starts
+	// those again from its catalogue, not through the creation path)
+	oldWrites, oldUnknown := 0, 0
+	const oldTables = 6
+	for i := 0; i < oldTables; i++ {
+		ctx, cancel := ctxT()
+		_, err := tc.Create(ctx, &regattapb.CreateTableRequest{Name: fmt.Sprintf("y%d", i)})
+		cancel()
+		if err != nil {
+			out.Count("setup_create_failed")
+		}
+	}
+	steps := n / 6
+	if steps < 10 {
+		steps = 10
+	}
+	if steps > 40 {
+		steps = 40
+	}
+	restarted := false
 	done := 0
-	for sc := 0; done < n && sc < 6+n/20 && leader.alive() && follower.alive(); sc++ {
+	for sc := 0; done < n && sc < 8+n/20 && leader.alive() && follower.alive(); sc++ {
+		if sc == 2 {
+			// the follower node is restarted on its disks
+			follower.halt()
+			follower.launch()
+			if !follower.waitReady(nil) {
+				out.Line("restart follower", "err not-ready "+strings.ReplaceAll(follower.logTail(), "\n", " | "))
+				return
+			}
+			fkv = regattapb.NewKVClient(follower.conn)
+			restarted = true
+			out.Count("follower_restart")
+		}
 		r := newRand(int64(9850 + sc))
 		g := newFsmGen(r)
 		m := len(g.keys)
 		tname := []byte(fmt.Sprintf("y%d", sc))
-		ctx, cancel := ctxT()
-		_, err := tc.Create(ctx, &regattapb.CreateTableRequest{Name: string(tname)})
-		cancel()
-		if err != nil {
-			out.Count("setup_create_failed")
-			continue
+		if sc >= oldTables {
+			ctx, cancel := ctxT()
+			_, err := tc.Create(ctx, &regattapb.CreateTableRequest{Name: string(tname)})
+			cancel()
+			if err != nil {
+				out.Count("setup_create_failed")
+				continue
+			}
 		}
+		onOld := restarted && sc < oldTables
 		// the table has to exist and have a leader on both sides before it is used
 		ready := false
 		for i := 0; i < 300 && !ready; i++ {
@@ -99,7 +134,7 @@ func hRyw(dir string) {
 		}
 		full := fullRange()
 		abandoned := false
-		for step := 0; step < 40 && done < n && !abandoned && leader.alive() && follower.alive(); step++ {
+		for step := 0; step < steps && done < n && !abandoned && leader.alive() && follower.alive(); step++ {
 			c := g.cmd(m, 0)
 			viaF := r.Intn(2) == 0
 			kv := lkv
@@ -160,6 +195,9 @@ func hRyw(dir string) {
 			cancel()
 			if viaF {
 				fWrites++
+				if onOld {
+					oldWrites++
+				}
 			}
 			if err != nil {
 				switch status.Code(err) {
@@ -167,6 +205,9 @@ func hRyw(dir string) {
 					out.Count("refused")
 					if viaF {
 						fWrites--
+						if onOld {
+							oldWrites--
+						}
 					}
 					continue
 				}
@@ -174,6 +215,9 @@ func hRyw(dir string) {
 				out.Count("unknown_outcome_" + status.Code(err).String())
 				if viaF {
 					fUnknown++
+					if onOld {
+						oldUnknown++
+					}
 				}
 				abandoned = true
 				continue
@@ -224,6 +268,10 @@ func hRyw(dir string) {
 	if (fWrites >= 4 && fUnknown == fWrites) || (fWrites >= 8 && fUnknown*2 > fWrites) {
 		ans = fmt.Sprintf("MOSTLY-UNACKNOWLEDGED %d of %d", fUnknown, fWrites)
 	}
+	if oldWrites >= 3 && oldUnknown == oldWrites {
+		ans = fmt.Sprintf("UNACKNOWLEDGED-AFTER-RESTART %d of %d", oldUnknown, oldWrites)
+	}
+	out.Stats["follower_writes_after_restart_on_old_tables"] += oldWrites
 	out.Stats["follower_writes"] += fWrites
 	out.Stats["follower_writes_unknown_outcome"] += fUnknown
 	out.Line("headers", ans) // (the driver answers `ok` to this line)
